@@ -303,7 +303,7 @@ Definition final_read (s : shared) : obs :=
 Definition observe (n : nat) (st : sys) : obs :=
   OL [ OL (map (fun p => oproc (procs st p)) (seq 0 n));
        oset (disk (sh st)); oset (packs (sh st)); oset (obsd (sh st));
-       final_read (sh st) ].
+       final_read (sh st); obool (collided (sh st)) ].
 
 (* the scheduled run: base = revision lists of the initial packs *)
 Definition run_case (base : list (list nat)) (rs : list role) (sched : list nat) : obs :=
